@@ -153,7 +153,7 @@ def _impl(p, depth, kind):
         "selfname": st.sampled_from(["self", "self", "self", "this", "_self", "SELF", "me"]),
         "cmd": st.sampled_from(["function", "function", "macro"]),
         # after name (and self for members): identifiers, sometimes names with characters special in regular expressions
-        "params": st.lists(weighted((6, ident()), (1, st.sampled_from(["vals@[]", "*args@", "c++@", "row@[", "x@**", "p@{}", "a@|b"]))),
+        "params": st.lists(weighted((6, ident()), (1, st.sampled_from(["dest_host_name_v@", "_", "vals@[]", "*args@", "c++@", "row@[", "x@**", "p@{}", "a@|b"]))),
                            min_size=0, max_size=5),
         "body": items(p, depth - 1, body_kinds, p.body_max),
     }
@@ -404,6 +404,8 @@ def _fin_items(lst, c, in_body):
         elif k == "set":
             it["name"] = _dup_name(c, "set", _num(it["name"], c), dup)
             it["values"] = _num(it["values"], c)
+            if c.n % 6 == 0 and it["name"].isidentifier():
+                it["values"] = it["values"][:1] + [it["name"]] + it["values"][1:3]      # a value spelled like the variable itself
             it["doc"] = _fin_doc(it["doc"], c)
         elif k == "option":
             fresh_opt = _num(it["name"], c)
